@@ -265,6 +265,9 @@ func (ctrl *DefaultController) Import(ctx context.Context, stream chan ledger.Lo
 
 			if err := ctrl.importLog(ctx, store, log); err != nil {
 				switch {
+				case errors.Is(err, postgres.ErrNotFound):
+					// the log refers to a transaction or a schema that the stream did not create
+					return NewErrImport(fmt.Errorf("importing log %d: %w", *log.ID, err))
 				case errors.Is(err, postgres.ErrSerialization) ||
 					errors.Is(err, ledgerstore.ErrConcurrentTransaction{}):
 					return NewErrImport(errors.New("concurrent transaction occur" +
